@@ -50,6 +50,10 @@ pub struct C09Case {
     /// same session (if the session still takes one) and sends one more message
     #[serde(default)]
     pub after_timeout: bool,
+    /// the applications acknowledge every received message right away with a stand-alone
+    /// acknowledgement (`Exchange::acknowledge`) before they go on with the script
+    #[serde(default)]
+    pub standalone_acks: bool,
 }
 
 fn default_linger() -> (u32, u32) {
@@ -81,8 +85,9 @@ pub fn case_strategy() -> impl Strategy<Value = C09Case> {
         (linger(), linger()),
         prop_oneof![2 => Just(None), 1 => (0u16..2500, 50u16..1500).prop_map(Some)],
         any::<bool>(),
+        prop::bool::weighted(0.3),
     )
-        .prop_map(|(kind, script, plan, sched, seed, linger_ms, busy_tx, after_timeout)| {
+        .prop_map(|(kind, script, plan, sched, seed, linger_ms, busy_tx, after_timeout, standalone_acks)| {
             let mut script: Vec<Msg> = script
                 .into_iter()
                 .map(|(from_a, len, recv_delay_ms)| Msg {
@@ -101,6 +106,7 @@ pub fn case_strategy() -> impl Strategy<Value = C09Case> {
                 linger_ms,
                 busy_tx,
                 after_timeout,
+                standalone_acks,
             }
         })
 }
@@ -145,6 +151,7 @@ async fn app(
     script: &[Msg],
     log: &RefCell<AppLog>,
     linger_ms: u32,
+    standalone_acks: bool,
 ) -> bool {
     let mut timed_out = false;
     for (i, m) in script.iter().enumerate() {
@@ -168,29 +175,31 @@ async fn app(
             if m.recv_delay_ms > 0 {
                 Timer::after(Duration::from_millis(m.recv_delay_ms as u64)).await;
             }
-            match ex.recv().await {
-                Ok(rx) => {
-                    let meta = rx.meta();
-                    let p = rx.payload();
-                    if meta.proto_id == PROTO && meta.proto_opcode == 0x70 {
+            // Some((proto, opcode, payload)) or the error
+            let got = match ex.recv().await {
+                Ok(rx) => Ok((rx.meta().proto_id, rx.meta().proto_opcode, rx.payload().to_vec())),
+                Err(e) => Err(e.code()),
+            };
+            match got {
+                Ok((proto_id, opcode, p)) => {
+                    if proto_id == PROTO && opcode == 0x70 {
                         // the peer's follow-up after a transmit timeout opened this exchange (its
                         // earlier messages never arrived): not part of the script
                         break;
                     }
-                    let step = meta.proto_opcode as usize;
-                    let ok = meta.proto_id == PROTO
-                        && step < script.len()
-                        && p == payload(step, script[step].len).as_slice();
+                    let step = opcode as usize;
+                    let ok = proto_id == PROTO && step < script.len() && p == payload(step, script[step].len);
                     log.borrow_mut().recvs.push(RecvRec {
                         step,
                         t: clock::now(),
                         payload_ok: ok,
                     });
+                    if standalone_acks {
+                        let _ = ex.acknowledge().await;
+                    }
                 }
-                Err(e) => {
-                    log.borrow_mut()
-                        .errors
-                        .push(format!("recv step {i}: {:?}", e.code()));
+                Err(code) => {
+                    log.borrow_mut().errors.push(format!("recv step {i}: {code:?}"));
                     break;
                 }
             }
@@ -273,7 +282,7 @@ pub fn simulate(case: &C09Case) -> Result<SimOut, Case> {
         ex.spawn("a.app", async {
             match Exchange::initiate_for_session(&a, &ca, planted.a_internal) {
                 Ok(exch) => {
-                    if app(exch, true, &script, &log_a, case.linger_ms.0).await && case.after_timeout {
+                    if app(exch, true, &script, &log_a, case.linger_ms.0, case.standalone_acks).await && case.after_timeout {
                         // the session may still take an exchange (PASE) or not (CASE, expired)
                         if let Ok(mut e2) = Exchange::initiate_for_session(&a, &ca, planted.a_internal) {
                             let _ = e2.send(MessageMeta::new(PROTO, 0x70, true), &payload(0x70, 5)).await;
@@ -289,7 +298,7 @@ pub fn simulate(case: &C09Case) -> Result<SimOut, Case> {
         ex.spawn("b.app", async {
             match Exchange::accept(&b).await {
                 Ok(exch) => {
-                    if app(exch, false, &script, &log_b, case.linger_ms.1).await && case.after_timeout {
+                    if app(exch, false, &script, &log_b, case.linger_ms.1, case.standalone_acks).await && case.after_timeout {
                         if let Ok(mut e2) = Exchange::initiate_for_session(&b, &cb, planted.b_internal) {
                             let _ = e2.send(MessageMeta::new(PROTO, 0x70, true), &payload(0x70, 5)).await;
                         }
